@@ -45,21 +45,23 @@ type pending struct {
 }
 
 type thread struct {
-	id     int
-	goid   int64
-	resume chan struct{}
-	op     pending
-	done   bool
-	name   string
+	parked  bool
+	adopted bool
+	id      int
+	goid    int64
+	resume  chan struct{}
+	op      pending
+	done    bool
+	name    string
 }
 
 // Point is one scheduling decision of an execution.
 type Point struct {
-	Enabled    []int
-	Chosen     int
-	Prev       int  // thread that ran before this point (-1 at start)
-	PrevStill  bool // the previous thread was still enabled (choosing another one is a preemption)
-	Op         string
+	Enabled   []int
+	Chosen    int
+	Prev      int  // thread that ran before this point (-1 at start)
+	PrevStill bool // the previous thread was still enabled (choosing another one is a preemption)
+	Op        string
 }
 
 // Result of one execution.
@@ -77,7 +79,7 @@ type sched struct {
 	mu       sync.Mutex
 	threads  []*thread
 	byGoid   map[int64]*thread
-	arrived  chan *thread
+	cond     *sync.Cond
 	abort    chan struct{}
 	aborted  bool
 	expectSp int // goroutines announced by Spawn that have not registered yet
@@ -125,16 +127,50 @@ func (s *sched) point(t *thread, op pending) {
 	s.mu.Lock()
 	if s.aborted {
 		s.mu.Unlock()
+		if t.adopted {
+			return
+		}
 		panic(abortSentinel{})
 	}
 	t.op = op
+	t.parked = true
+	s.cond.Broadcast()
 	s.mu.Unlock()
-	s.arrived <- t
 	select {
 	case <-t.resume:
 	case <-s.abort:
+		if t.adopted {
+			// a goroutine started by the code under test has no wrapper to catch the sentinel: it runs on
+			// freely (the harness makes it terminate) while the harness threads unwind
+			return
+		}
 		panic(abortSentinel{})
 	}
+}
+
+// waitUntil waits (scheduler goroutine) until pred holds or the timeout expires. pred runs with s.mu held.
+func (s *sched) waitUntil(pred func() bool, timeout time.Duration) bool {
+	deadline := time.Now().Add(timeout)
+	stop := make(chan struct{})
+	defer close(stop)
+	go func() {
+		select {
+		case <-time.After(timeout):
+			s.mu.Lock()
+			s.cond.Broadcast()
+			s.mu.Unlock()
+		case <-stop:
+		}
+	}()
+	s.mu.Lock()
+	defer s.mu.Unlock()
+	for !pred() {
+		if time.Now().After(deadline) {
+			return false
+		}
+		s.cond.Wait()
+	}
+	return true
 }
 
 func (s *sched) lockName(kind string, p interface{}) string {
@@ -176,6 +212,7 @@ func (s *sched) apply(t *thread) {
 	case opLock:
 		if t.op.mu != nil {
 			t.op.mu.held = true
+			t.op.mu.hist = append(t.op.mu.hist, "lock:"+t.name)
 		} else {
 			t.op.rw.announced++
 		}
@@ -200,7 +237,8 @@ func (p pending) String() string {
 // following choices (then the default policy: keep running the same thread while
 // it is enabled, else the lowest enabled id). maxSteps bounds the execution.
 func Explore(threads []func(), choices []int, maxSteps int, watchdog time.Duration) Result {
-	s := &sched{byGoid: map[int64]*thread{}, arrived: make(chan *thread, 64), abort: make(chan struct{}), names: map[interface{}]string{}, nextName: map[string]int{}}
+	s := &sched{byGoid: map[int64]*thread{}, abort: make(chan struct{}), names: map[interface{}]string{}, nextName: map[string]int{}}
+	s.cond = sync.NewCond(&s.mu)
 	activeMu.Lock()
 	if active != nil {
 		activeMu.Unlock()
@@ -213,7 +251,7 @@ func Explore(threads []func(), choices []int, maxSteps int, watchdog time.Durati
 	var errMu sync.Mutex
 	started := make(chan struct{})
 	for i, f := range threads {
-		t := &thread{id: i, resume: make(chan struct{}), name: fmt.Sprintf("T%d", i)}
+		t := &thread{id: i, resume: make(chan struct{}), name: fmt.Sprintf("T%d", i), parked: true}
 		s.threads = append(s.threads, t)
 		wg.Add(1)
 		go func(t *thread, f func()) {
@@ -233,11 +271,8 @@ func Explore(threads []func(), choices []int, maxSteps int, watchdog time.Durati
 				}
 				s.mu.Lock()
 				t.done = true
-				aborted := s.aborted
+				s.cond.Broadcast()
 				s.mu.Unlock()
-				if !aborted {
-					s.arrived <- t
-				}
 			}()
 			select {
 			case <-t.resume:
@@ -264,26 +299,37 @@ func Explore(threads []func(), choices []int, maxSteps int, watchdog time.Durati
 		case <-time.After(watchdog):
 			res.Hang = true
 		}
+		// goroutines adopted from the code under test must be gone before the next execution starts
+		for i := 0; ; i++ {
+			s.mu.Lock()
+			alive := 0
+			for _, t := range s.threads {
+				if t.adopted && !t.done {
+					alive++
+				}
+			}
+			s.mu.Unlock()
+			if alive == 0 {
+				break
+			}
+			if time.Duration(i)*200*time.Microsecond > watchdog {
+				res.Hang = true
+				res.Blocked = append(res.Blocked, fmt.Sprintf("%d goroutine(s) started by the code under test did not terminate", alive))
+				break
+			}
+			time.Sleep(200 * time.Microsecond)
+		}
 		activeMu.Lock()
 		active = nil
 		activeMu.Unlock()
 		return res
 	}
 	for {
-		// wait for announced spawns to register
-		for {
-			s.mu.Lock()
-			n := s.expectSp
-			s.mu.Unlock()
-			if n == 0 {
-				break
-			}
-			select {
-			case <-s.arrived: // a newborn arrived at its first point (it decremented expectSp itself)
-			case <-time.After(watchdog):
-				res.Hang = true
-				return finish()
-			}
+		// wait for announced spawns to register (they park at their first point)
+		if !s.waitUntil(func() bool { return s.expectSp == 0 }, watchdog) {
+			res.Hang = true
+			res.Blocked = append(res.Blocked, "an announced goroutine never registered")
+			return finish()
 		}
 		s.mu.Lock()
 		var en []int
@@ -302,6 +348,22 @@ func Explore(threads []func(), choices []int, maxSteps int, watchdog time.Durati
 			return finish()
 		}
 		if len(en) == 0 {
+			// goroutines outside the scheduler (helpers, or goroutines the code under test started without
+			// announcing them) may still be about to change the state: give them a moment before calling it a deadlock
+			settled := false
+			for i := 0; i < 400 && !settled; i++ {
+				time.Sleep(500 * time.Microsecond)
+				s.mu.Lock()
+				for _, t := range s.threads {
+					if !t.done && s.enabled(t) {
+						settled = true
+					}
+				}
+				s.mu.Unlock()
+			}
+			if settled {
+				continue
+			}
 			res.Deadlock = true
 			s.mu.Lock()
 			for _, t := range s.threads {
@@ -348,22 +410,12 @@ func Explore(threads []func(), choices []int, maxSteps int, watchdog time.Durati
 			res.Hang = true
 			return finish()
 		}
+		s.mu.Lock()
+		t.parked = false
+		s.mu.Unlock()
 		t.resume <- struct{}{}
 		// wait until it reaches its next point or finishes
-		select {
-		case a := <-s.arrived:
-			if a != t {
-				// a newborn (adopted goroutine) or an unexpected arrival: it is parked at its point; keep waiting for t
-				for a != t {
-					select {
-					case a = <-s.arrived:
-					case <-time.After(watchdog):
-						res.Hang = true
-						return finish()
-					}
-				}
-			}
-		case <-time.After(watchdog):
+		if !s.waitUntil(func() bool { return t.parked || t.done }, watchdog) {
 			res.Hang = true
 			res.Blocked = append(res.Blocked, t.name+" did not return to the scheduler after "+opName)
 			return finish()
@@ -371,27 +423,45 @@ func Explore(threads []func(), choices []int, maxSteps int, watchdog time.Durati
 	}
 }
 
+// Token identifies a goroutine announced with Spawn.
+type Token struct{ s *sched }
+
 // Spawn announces that the calling controlled goroutine is about to start a
-// goroutine that will itself use controlled primitives (hook in the code under test).
-func Spawn() {
+// goroutine that will itself use controlled primitives (hook in the code under
+// test). The token is handed to the new goroutine, which calls Adopt first.
+func Spawn() Token {
 	if s := cur(); s != nil {
 		if t := s.me(); t != nil {
 			s.mu.Lock()
-			s.expectSp++
-			s.mu.Unlock()
+			defer s.mu.Unlock()
+			if !s.aborted {
+				s.expectSp++
+				return Token{s}
+			}
 		}
 	}
+	return Token{}
 }
 
-// Adopt registers the calling goroutine (announced with Spawn) as a controlled thread and parks it.
-func adopt(s *sched, op pending) *thread {
+// Adopt registers the calling goroutine as a controlled thread of the execution
+// that announced it and parks it until it is scheduled.
+func Adopt(tok Token) {
+	s := tok.s
+	if s == nil {
+		return
+	}
 	s.mu.Lock()
-	t := &thread{id: len(s.threads), goid: goid(), resume: make(chan struct{}), name: fmt.Sprintf("G%d", len(s.threads))}
+	if s.aborted || cur() != s {
+		s.expectSp--
+		s.mu.Unlock()
+		return
+	}
+	t := &thread{id: len(s.threads), goid: goid(), resume: make(chan struct{}), name: fmt.Sprintf("G%d", len(s.threads)), adopted: true}
 	s.threads = append(s.threads, t)
 	s.byGoid[t.goid] = t
 	s.expectSp--
 	s.mu.Unlock()
-	return t
+	s.point(t, pending{kind: opStart, name: "spawned"})
 }
 
 // Yield is a hook for waits that are not sync operations (channel receive): the
@@ -403,13 +473,7 @@ func Yield(name string, ready func() bool) {
 	}
 	t := s.me()
 	if t == nil {
-		s.mu.Lock()
-		exp := s.expectSp > 0
-		s.mu.Unlock()
-		if !exp {
-			return
-		}
-		t = adopt(s, pending{})
+		return
 	}
 	s.point(t, pending{kind: opYield, name: name, ready: ready})
 }
@@ -423,11 +487,8 @@ func ThreadDone() {
 	if t := s.me(); t != nil {
 		s.mu.Lock()
 		t.done = true
-		aborted := s.aborted
+		s.cond.Broadcast()
 		s.mu.Unlock()
-		if !aborted {
-			s.arrived <- t
-		}
 	}
 }
 
@@ -455,9 +516,17 @@ func controlled() (*sched, *thread) {
 type Mutex struct {
 	real sync.Mutex
 	held bool // model state (controlled mode only)
+	hist []string
 }
 
 func (m *Mutex) Lock() {
+	if s := cur(); s != nil {
+		if _, t := controlled(); t == nil {
+			s.mu.Lock()
+			m.hist = append(m.hist, fmt.Sprintf("reallock(g=%d)", goid()))
+			s.mu.Unlock()
+		}
+	}
 	if s, t := controlled(); s != nil {
 		s.mu.Lock()
 		n := s.lockName("M", m)
@@ -472,10 +541,12 @@ func (m *Mutex) Unlock() {
 	if s, _ := controlled(); s != nil {
 		s.mu.Lock()
 		if !m.held {
+			h := fmt.Sprint(m.hist)
 			s.mu.Unlock()
-			panic("vsync: unlock of unlocked Mutex")
+			panic("vsync: unlock of unlocked Mutex; history " + h)
 		}
 		m.held = false
+		m.hist = append(m.hist, "unlock(controlled)")
 		s.mu.Unlock()
 		return
 	}
@@ -485,6 +556,7 @@ func (m *Mutex) Unlock() {
 		ab := s.aborted
 		wasHeld := m.held
 		m.held = false
+		m.hist = append(m.hist, fmt.Sprintf("unlock(uncontrolled,aborted=%v,g=%d)", ab, goid()))
 		s.mu.Unlock()
 		if ab && wasHeld {
 			return
